@@ -67,6 +67,14 @@ def eval_call(eng, e, st):
             N = eng.as_iseq(st, eng.ev1(e.args[1], st))
             o = eng.as_int(st, eng.ev1(e.args[2], st))
             return [(st, VBool(smt.occ(F.t, N.t, o)))]
+        if fn == "fits_bytes" and fn not in st.env:
+            n = eng.as_int(st, eng.ev1(e.args[0], st))
+            w = eng.as_int(st, eng.ev1(e.args[1], st))
+            signed = False
+            for k in e.keywords:
+                if k.arg == "signed":
+                    signed = static_bool(eng.ev1(k.value, st))
+            return [(st, VBool((smt.fits_signed if signed else smt.fits_bytes)(n, w)))]
         if fn == "sub" and fn not in st.env:
             v = eng.deref(st, eng.ev1(e.args[0], st))
             a = eng.as_int(st, eng.ev1(e.args[1], st))
@@ -314,16 +322,11 @@ def builtin_call(eng, st, name, args, kwargs, node):
         return [(st, VBool(False))]
     if name == "int.from_bytes":
         v = eng.as_iseq(st, args[0], node)
-        bo = kwargs.get("byteorder", args[1] if len(args) > 1 else None)
-        signed = kwargs.get("signed")
-        if signed is not None and not (isinstance(signed, VBool) and z3.is_false(signed.t)):
-            if isinstance(signed, VBool) and z3.is_true(signed.t):
-                f = smt_fn("from_bytes_signed_" + byteorder(bo), ISq, I)
-                return [(st, VInt(f(v.t)))]
-            raise Unsupported("symbolic signed=")
-        f = smt.le_val if byteorder(bo) == "little" else smt.be_val
-        r = f(v.t)
-        unfold_int_of_bytes(st, v.t, r, byteorder(bo))
+        bo = byteorder(kwargs.get("byteorder", args[1] if len(args) > 1 else None))
+        signed = static_bool(kwargs.get("signed"))
+        r = smt.FROM_BYTES[(bo, signed)](v.t)
+        if not signed:
+            unfold_int_of_bytes(st, v.t, r, bo)
         return [(st, VInt(r))]
     if name == "int.to_bytes":
         n = eng.as_int(st, args[0], node)
@@ -379,32 +382,35 @@ def unfold_int_of_bytes(st, s, r, bo):
     st.assume(*facts)
 
 
+def static_bool(v):
+    if v is None:
+        return False
+    if isinstance(v, VBool) and z3.is_true(v.t):
+        return True
+    if isinstance(v, VBool) and z3.is_false(v.t):
+        return False
+    raise Unsupported("symbolic signed=")
+
+
 def int_to_bytes(eng, st, n, rest, kwargs, node):
     size = kwargs.get("length", rest[0] if rest else None)
-    bo = kwargs.get("byteorder", rest[1] if len(rest) > 1 else None)
-    signed = kwargs.get("signed")
+    bo = byteorder(kwargs.get("byteorder", rest[1] if len(rest) > 1 else None))
+    signed = static_bool(kwargs.get("signed"))
     if size is None:
         raise Unsupported("to_bytes without length")
     size_t = eng.as_int(st, size, node)
-    if signed is not None and not (isinstance(signed, VBool) and z3.is_false(signed.t)):
-        raise Unsupported("to_bytes signed")
-    bo = byteorder(bo)
-    f = smt.le_bytes if bo == "little" else smt.be_bytes
-    r = f(n, size_t)
+    r = smt.TO_BYTES[(bo, signed)](n, size_t)
+    fits = (smt.fits_signed if signed else smt.fits_bytes)(n, size_t)
     if not eng.spec_mode:
         eng.implicit_error(st, size_t >= 0, "ValueError", node, "to_bytes-length")
-        # OverflowError unless 0 <= n < 256**size; for the xor idiom the operand is bigxor of two size-byte values
-        fits = smt.fits_bytes(n, size_t)
         eng.implicit_error(st, fits, "OverflowError", node, "to_bytes-overflow")
     st.assume(z3.Implies(size_t >= 0, IS.len(r) == size_t), is_bytes_fact(r))
-    # value law for fixed widths
-    for w in (1, 2, 4, 8):
-        if z3.is_int_value(size_t) and size_t.as_long() == w:
-            fits = smt.fits_bytes(n, size_t)
-            st.assume(fits == z3.And(0 <= n, n < 256 ** w))
-            for k in range(w):
-                p = k if bo == "little" else w - 1 - k
-                st.assume(z3.Implies(fits, IS.at(r, z3.IntVal(k)) == (n / (256 ** p)) % 256))
+    if not signed and z3.is_int_value(size_t) and size_t.as_long() in (1, 2, 4, 8):
+        w = size_t.as_long()
+        st.assume(fits == z3.And(0 <= n, n < 256 ** w))
+        for k in range(w):
+            p = k if bo == "little" else w - 1 - k
+            st.assume(z3.Implies(fits, IS.at(r, z3.IntVal(k)) == (n / (256 ** p)) % 256))
     return [(st, VSeq(r, "bytes"))]
 
 
@@ -789,7 +795,7 @@ def lemma_call(eng, st, name, args, kwargs, node):
 
 
 def contract_call(eng, st, target, args, kwargs, node):
-    from .heapmodel import havoc_target, snapshot
+    from .heapmodel import havoc_target
     fr = eng.fr
     mode = None
     c = eng.cdb.get(target, mode)
